@@ -383,20 +383,20 @@ impl World {
             self.hist.push(Hist::Net { t: self.now, what: "drop", to_client: false, len });
             return;
         }
-        let mut at = self.now + self.latency();
+        let mut at = self.now.saturating_add(self.latency());
         if self.tape.chance(tape::NET, self.net.delay_ppm) {
-            at += self.tape.draw(tape::NET, self.net.big_delay + 1);
+            at = at.saturating_add(self.tape.draw(tape::NET, self.net.big_delay + 1));
             self.stats.fault("delay_request");
         }
         if self.net.fifo {
-            at = at.max(self.last_udp_to_server + 1);
+            at = at.max(self.last_udp_to_server.saturating_add(1));
         }
         self.last_udp_to_server = self.last_udp_to_server.max(at);
         let dup = self.tape.chance(tape::NET, self.net.dup_ppm);
         if dup {
             self.stats.fault("dup_request");
             self.hist.push(Hist::Net { t: self.now, what: "dup", to_client: false, len });
-            let at2 = at + 1 + self.latency();
+            let at2 = at.saturating_add(1).saturating_add(self.latency());
             self.push(at2, Ev::ToServerUdp { server, from, data: data.clone() });
         }
         self.push(at, Ev::ToServerUdp { server, from, data });
@@ -425,14 +425,14 @@ impl World {
             self.hist.push(Hist::Net { t: self.now, what: "drop", to_client: true, len });
             return;
         }
-        let mut at = self.now + extra + self.latency();
+        let mut at = self.now.saturating_add(extra).saturating_add(self.latency());
         if self.tape.chance(tape::NET, self.net.delay_ppm) {
-            at += self.tape.draw(tape::NET, self.net.big_delay + 1);
+            at = at.saturating_add(self.tape.draw(tape::NET, self.net.big_delay + 1));
             self.stats.fault("delay_reply");
             self.hist.push(Hist::Net { t: self.now, what: "delay", to_client: true, len });
         }
         if self.net.fifo {
-            at = at.max(self.last_udp_to_client + 1);
+            at = at.max(self.last_udp_to_client.saturating_add(1));
         }
         self.last_udp_to_client = self.last_udp_to_client.max(at);
         if !data.is_empty() && self.tape.chance(tape::NET, self.net.flip_ppm) {
@@ -450,7 +450,7 @@ impl World {
         if self.tape.chance(tape::NET, self.net.dup_ppm) {
             self.stats.fault("dup_reply");
             self.hist.push(Hist::Net { t: self.now, what: "dup", to_client: true, len });
-            let at2 = at + 1 + self.latency();
+            let at2 = at.saturating_add(1).saturating_add(self.latency());
             self.push(at2, Ev::ToClientUdp { sock: sock as u64, from: src, data: data.clone() });
         }
         self.push(at, Ev::ToClientUdp { sock: sock as u64, from: src, data });
@@ -508,13 +508,13 @@ impl World {
                     pieces.push(data);
                 }
                 for p in pieces {
-                    let at = (self.now + self.latency()).max(self.conns[conn].last_to_client + 1);
+                    let at = self.now.saturating_add(self.latency()).max(self.conns[conn].last_to_client.saturating_add(1));
                     self.conns[conn].last_to_client = at;
                     self.push(at, Ev::ToClientTcp { sock, kind: TcpSeg::Data(p) });
                 }
             }
             other => {
-                let at = (self.now + self.latency()).max(self.conns[conn].last_to_client + 1);
+                let at = self.now.saturating_add(self.latency()).max(self.conns[conn].last_to_client.saturating_add(1));
                 self.conns[conn].last_to_client = at;
                 self.push(at, Ev::ToClientTcp { sock, kind: other });
             }
@@ -522,7 +522,7 @@ impl World {
     }
 
     fn net_tcp_to_server(&mut self, conn: usize, seg: TcpSeg) {
-        let at = (self.now + self.latency()).max(self.conns[conn].last_to_server + 1);
+        let at = self.now.saturating_add(self.latency()).max(self.conns[conn].last_to_server.saturating_add(1));
         self.conns[conn].last_to_server = at;
         self.push(at, Ev::ToServerTcp { conn, kind: seg });
     }
@@ -832,7 +832,7 @@ impl Backend for SimBackend {
         match mode {
             TcpListen::Refuse => {
                 let rtt = 2 * w.latency();
-                w.now += rtt;
+                w.now = w.now.saturating_add(rtt);
                 w.stats.probe("tcp_refused");
                 w.hist.push(Hist::TcpConnect { t: w.now, sock: u64::MAX, to, timeout: tns, result: "refused", waited: rtt });
                 Err(io::Error::new(io::ErrorKind::ConnectionRefused, "Connection refused"))
@@ -851,7 +851,7 @@ impl Backend for SimBackend {
             TcpListen::Accept => {
                 let server = server.unwrap();
                 let rtt = 2 * w.latency();
-                w.now += rtt;
+                w.now = w.now.saturating_add(rtt);
                 let id = w.socks.len() as u64;
                 w.next_port += 1;
                 let client_addr = SocketAddr::new(IpAddr::V4(CLIENT_IP), w.next_port);
